@@ -1,7 +1,7 @@
 import vlib, common
 
 RULE = 'fsm: random lives of one node on RocksDB (incarnations with re-delivered entries, clean stops, reopen) - every outcome (applied/already-applied, first version, count) and the (index, version) pair after each incarnation compared with the Coq state machine; cluster: 3-node raft clusters with random adds/bulks, follower stop/restart, leadership transfers - every acknowledged snapshot must carry version = number of events accepted before it and its own event digest; crash: kill -9 at the store write and at random instants, restart, replay; transfer: followers brought back by state transfer after log compaction, later insertions must continue the version sequence. distinct = (scenario, step); non-trivial = step that inserts or re-delivers'
-CMDS = ['fsm', 'cluster', 'crash', 'transfer']
+CMDS = ['fsm', 'cluster', 'crash', 'transfer', 'transferlive']
 CASES = {'fsm': ('run_fsm_cases', 'C05_versions_dense_over_life (Fsm/Fsm.v apply vs consensus/fsm.go)')}
 
 
